@@ -19,6 +19,16 @@ def unchanged_lists_by_field(o: H, h: H, fields):
         FA([l], z3.Implies(cond, z3.Select(h.arr['L_at'], l) == z3.Select(o.arr['L_at'], l)), [z3.Select(h.arr['L_at'], l)]))
 
 
+def lists_of_others_unchanged(o: H, h: H, owner, fields):
+    """a list that is owned by an object other than `owner` through a field not in `fields` keeps its content"""
+    l = A('l!lo')
+    cond = z3.And(l >= 0, l < o.alloc, o.own_obj(l) != owner, o.own_obj(l) != -1, *[o.own_fld(l) != field_id(f) for f in fields])
+    return z3.And(
+        FA([l], z3.Implies(cond, h.bagof(l) == o.bagof(l)), [h.bagof(l)]),
+        FA([l], z3.Implies(cond, h.len(l) == o.len(l)), [h.len(l)]),
+        FA([l], z3.Implies(cond, z3.Select(h.arr['L_at'], l) == z3.Select(o.arr['L_at'], l)), [z3.Select(h.arr['L_at'], l)]))
+
+
 def install(reg: Registry):
     install_lookups(reg)
     install_remove_attacker(reg)
@@ -300,6 +310,7 @@ def install_add_attacker(reg):
                 h.f('reached_attack_steps', b) == o.f('reached_attack_steps', b), h.f('entry_points', b) == o.f('entry_points', b))),
                                          [h.f('reached_attack_steps', b)])),
             ('frame.unrelated-lists', unchanged_lists_by_field(o, h, ('reached_attack_steps', 'compromised_by', 'attackers', 'entry_points'))),
+            ('frame.lists-of-other-owners', lists_of_others_unchanged(o, h, a, ('compromised_by', 'attackers'))),
             ('frame.own', FA([A('l!fo2')], z3.Implies(z3.And(A('l!fo2') >= 0, A('l!fo2') < o.alloc),
                                                       z3.And(h.own_obj(A('l!fo2')) == o.own_obj(A('l!fo2')), h.own_fld(A('l!fo2')) == o.own_fld(A('l!fo2')),
                                                              h.cls(A('l!fo2')) == o.cls(A('l!fo2')))), [h.own_obj(A('l!fo2'))])),
@@ -530,14 +541,27 @@ def install_attach_attackers(reg):
                                        *[z3.Select(h.arr[x], o.f('_full_name_to_node', G)) == z3.Select(o.arr[x], o.f('_full_name_to_node', G)) for x in DICT_ARRAYS],
                                        *[z3.Select(h.arr[x], o.f('_id_to_node', G)) == z3.Select(o.arr[x], o.f('_id_to_node', G)) for x in DICT_ARRAYS])),
             ('model-kept', unchanged_lists_by_field(o, h, ('reached_attack_steps', 'compromised_by', 'attackers', 'entry_points'))),
+            ('model-lists-kept', model_lists_unchanged(o, h)),
             ('model-attackers-kept', z3.And(list_unchanged(o, h, o.f('attackers', model_of_h(o, G))),
                                             h.f('model', G) == o.f('model', G), h.f('attackers', model_of_h(o, G)) == o.f('attackers', model_of_h(o, G)))),
-            ('names-kept', z3.And(h.arr['f_name'] == o.arr['f_name'], h.arr['f_asset'] == o.arr['f_asset'], h.arr['f_t0'] == o.arr['f_t0'],
-                                  h.arr['f_t1'] == o.arr['f_t1'])),
+            ('names-kept', z3.And(*[FA([A('x!nk')], z3.Implies(z3.And(A('x!nk') >= 0, A('x!nk') < o.alloc),
+                                                               z3.Select(h.arr[n_], A('x!nk')) == z3.Select(o.arr[n_], A('x!nk'))), [z3.Select(h.arr[n_], A('x!nk'))])
+                                    for n_ in ('f_name', 'f_asset', 'f_t0', 'f_t1', 'f_id') if not z3.eq(h.arr[n_], o.arr[n_])], z3.BoolVal(True))),
         ]
 
     def model_of_h(o, G):
         return v_a(o.f('model', G))
+
+    def model_lists_unchanged(o, h):
+        """lists owned by model-side objects (the model, its attacker attachments, entry-point tuples) are not written"""
+        l = A('l!ml')
+        oc = o.cls(o.own_obj(l))
+        cond = z3.And(l >= 0, l < o.alloc, o.own_obj(l) >= 0, z3.Or(oc == class_id('Model'), oc == class_id('AttackerAttachment'), oc == class_id('EPTuple')))
+        return z3.And(
+            FA([l], z3.Implies(cond, h.bagof(l) == o.bagof(l)), [h.bagof(l)]),
+            FA([l], z3.Implies(cond, h.len(l) == o.len(l)), [h.len(l)]),
+            FA([l], z3.Implies(cond, z3.Select(h.arr['L_at'], l) == z3.Select(o.arr['L_at'], l)), [z3.Select(h.arr['L_at'], l)]),
+            FA([l], z3.Implies(z3.And(l >= 0, l < o.alloc), z3.And(h.own_obj(l) == o.own_obj(l), h.own_fld(l) == o.own_fld(l), h.cls(l) == o.cls(l))), [h.own_obj(l)]))
 
     def attached(o, h, G, j):
         """the j-th model attacker has its graph attacker at position len0 + j, with the specified reached / entry sets"""
